@@ -167,7 +167,9 @@ def gen_spec(rng, fmt, want=None):
     if fmt == 'v3':
         # the frequency axis: receiver band, bandwidth attribute (incl. the faulty CBF value), L0 center_freq
         # attribute, centre_freq= argument.  'fake' = UHF receiver behind the 856 MHz digitiser: flipped spectrum
-        axis = rng.choice(['l', 'l', 'fake', 'fake', 'fake_bug', 'uhf', 'l_bug', 'none', 's'])
+        axis = rng.choice(V3_AXES + ['l', 'fake'])
+        if want is not None:
+            axis = V3_AXES[want[0] % len(V3_AXES)]
         spec['axis'] = axis
         spec['band'] = dict(l='l', l_bug='l', fake='u', fake_bug='u', uhf='u', none='', s='s')[axis]
         if axis in ('fake', 'fake_bug', 'l_bug'):
@@ -181,6 +183,10 @@ def gen_spec(rng, fmt, want=None):
         spec['l0_centre'] = rng.choice([None, None, None, 1100e6])
         spec['centre_param'] = rng.choice([None, None, 1284e6, 950e6]) if axis not in ('none', 's') else \
             rng.choice([None, 1284e6, 1284e6])
+        if want is not None:
+            # strata: every axis kind once with nothing overriding the receiver table, then both overrides at once
+            spec['l0_centre'] = 1100e6 if want[1] else None
+            spec['centre_param'] = 950e6 if want[1] else None
         spec['centroid'] = rng.random() < 0.4
         spec['cbf_div'] = rng.choice([1, 2, 4])
     if fmt == 'v4':
@@ -197,6 +203,7 @@ def gen_spec(rng, fmt, want=None):
 
 
 PRE_FRACTION = 0.7
+V3_AXES = ['l', 'fake', 'uhf', 'fake_bug', 'l_bug', 'none', 's']
 
 
 def gen_range(rng, n, lo, min_start=0):
@@ -1174,7 +1181,10 @@ def run_witness(ctx, w):
     with ix items: "full", an int, {"slice": [a, b, c]}."""
     if 'script' not in w:
         return open_witness(ctx, w)
-    fx = Fixture(w['spec'], tag='c01w')
+    try:
+        fx = Fixture(w['spec'], tag='c01w')
+    except (IndexError, ValueError, KeyError, TypeError, AttributeError, ZeroDivisionError) as e:
+        return report_open_failed(ctx, OpenFailed(w['spec'], e), dict(kind='witness', witness=w))
     try:
         fx.reset()
         script = []
@@ -1236,7 +1246,7 @@ def fixture_plan(ctx):
     nh = ctx.scale(24, 80)
     # v4: more data sets (opened with / without a preselection), fewer histories on each
     # v2 / v3: the frequency-axis variants (old v2 files; v3 receiver bands, fake UHF, faulty bandwidth, overrides)
-    plan = dict(v1=(nf, nh), v2=(ctx.scale(7, 30), ctx.scale(18, 80)), v3=(ctx.scale(9, 40), ctx.scale(14, 60)),
+    plan = dict(v1=(nf, nh), v2=(ctx.scale(7, 30), ctx.scale(18, 80)), v3=(ctx.scale(10, 40), ctx.scale(12, 60)),
                 v4=(ctx.scale(12, 48), ctx.scale(12, 50)))
     return [(fmt,) + plan[fmt] for fmt in FMTS]
 
@@ -1258,6 +1268,10 @@ def run(ctx):
             # v4: the first data sets of a run cover the four parity strata of (stored channel count, first + last of
             # the preselected channel range); the others are drawn freely (with / without preselection, any keys)
             want = [k & 1, (k >> 1) & 1] if fmt == 'v4' and k < 4 else None
+            if fmt == 'v3' and k < len(V3_AXES) + 2:
+                # every frequency-axis kind once without overrides, then two data sets with BOTH overrides (L0
+                # center_freq attribute and centre_freq= argument)
+                want = [k, 0] if k < len(V3_AXES) else [rng.randrange(3), 1]
             try:
                 fx = build_fixture(random.Random(fseed), fmt, want=want)
             except OpenFailed as e:
